@@ -60,7 +60,8 @@ def run(ctx):
             app_rank = [rank[f["name"]] for f in facts if f["isapp"]][0]
             lk = vlib.coq_list(str(rank[n]) for n in runs[0][0]["lookups"])
             obs = [wiring.coq_obs(r, app_rank) for _, r in runs]
-            terms.append("(mkP (mkW %d %s %s %s) %s)" % (s["id"], term, lk, obs[0], vlib.coq_list(obs[1:])))
+            terms.append("(mkP (mkW %d %s %s %s %s) %s)" % (s["id"], term, lk, obs[0], wiring.coq_extras(s, rank),
+                                                               vlib.coq_list(obs[1:])))
             by_id[s["id"]] = {"scenario": s, "runs": [{"regorder": c["regorder"], "observation": r} for c, r in runs],
                               "observation": runs[0][1]}
         out = vlib.coq_eval_sharded(ctx, "cases_c10_" + tag, wiring.HEADER.replace("Notation case := wcase.\n", "") % "Corr.Check_C10",
